@@ -57,6 +57,10 @@ CHECKS["C04"] = ("E3-sysrun", "exploration",
   "Bounded-exhaustive over request configurations on the whole system (real Tier1Service.blocks, real Tier2Service.processRange in-process, real hashes, scripted modules): mode x segment size x module initial blocks x start x stop x final block on three programs; range, order, duplicates, gaps at the hand-off, cursors, and a resumed request from the cursor of every delivered final block compared with the original suffix.",
   "Goroutine timing inside one request is not controlled (E2 does that for the scheduler); one effective worker; fork-free chain; derr back-off and dstore zstd options overlaid for speed.",
   "bounded exhaustive enumeration of configurations, each executed on the real tier1+tier2 implementation", "3/C04")
+CHECKS["C01"] = ("E3-sysrun", "exploration",
+  "Bounded-exhaustive differential check on the whole system: 7 (thorough 13) scripted module graphs x segment size x mode x (start,stop) shapes x final block x cache histories (empty, other range, dev-then-prod, another output module of the same graph, a one-field mutant of an ancestor run first on the same cache); every request's non-empty (number,id,payload) stream must equal the linear reference run of the real system and the reference interpreter. Payloads echo store reads and deltas.",
+  "Schedule dimension (completion order, workers) is the C05 explorer's; goroutine timing inside a run is not controlled; programs are scripted modules, not compiled WASM.",
+  "bounded exhaustive enumeration of configurations and cache histories, differential between strategies of the real system + reference interpreter", "3/C01")
 PENDING = {}
 def main():
     checks = []
